@@ -237,7 +237,17 @@ def _quant_shard(args):
 
 
 # (c) -------------------------------------------------------------------------------------------
+PRELU_ALPHA_Q = (0.0078125, 10)   # scale and zero point of the constant alpha tensor of the PRELU cases
+PRELU_ALPHA_CODE = 42              # every channel: alpha = 0.0078125 * (42 - 10) = 0.25
+
+
 def lut_model(opname, dtype, in_q, out_q, alpha=None):
+    if opname == "PRELU":
+        t_in = dict(name="input", shape=[1, 4, 4, 8], dtype=dtype, quant=dict(scale=[in_q[0]], zp=[in_q[1]]), data=None)
+        t_a = dict(name="alpha", shape=[1, 1, 8], dtype=dtype, quant=dict(scale=[PRELU_ALPHA_Q[0]], zp=[PRELU_ALPHA_Q[1] + (128 if dtype == "uint8" else 0)]),
+                   data=np.full([1, 1, 8], PRELU_ALPHA_CODE + (128 if dtype == "uint8" else 0), dtype=dtype))
+        t_out = dict(name="output", shape=[1, 4, 4, 8], dtype=dtype, quant=dict(scale=[out_q[0]], zp=[out_q[1]]), data=None)
+        return dict(subgraphs=[dict(name="main", tensors=[t_in, t_a, t_out], inputs=[0], outputs=[2], ops=[dict(op="PRELU", inputs=[0, 1], outputs=[2], opts=None)])])
     t_in = dict(name="input", shape=[1, 4, 4, 8], dtype=dtype, quant=dict(scale=[in_q[0]], zp=[in_q[1]]), data=None)
     t_out = dict(name="output", shape=[1, 4, 4, 8], dtype=dtype, quant=dict(scale=[out_q[0]], zp=[out_q[1]]), data=None)
     opts = None
@@ -292,6 +302,16 @@ def lut_expected(case):
         elif op == "HARD_SWISH":
             y = real * min(max(real + 3.0, 0.0), 6.0) / 6.0
             acc.add(max(lo, min(hi, Q.hard_swish_ref(x, zp_in, zp_out, s_in, s_out))))
+        elif op == "PRELU":
+            # TFLite reference PRELU: identity branch requantised by s_in/s_out, negative branch by s_in*s_alpha/s_out on v*(alpha code - zp)
+            v = x - zp_in
+            if v >= 0:
+                m, e = Q.quantize_multiplier(s_in / s_out)
+                out.append({max(lo, min(hi, zp_out + Q.mbqm(v, m, e)))})
+            else:
+                m, e = Q.quantize_multiplier(s_in * float(np.float32(PRELU_ALPHA_Q[0])) / s_out)
+                out.append({max(lo, min(hi, zp_out + Q.mbqm(v * (PRELU_ALPHA_CODE - PRELU_ALPHA_Q[1]), m, e)))})
+            continue
         elif op == "EXP":
             y = math.exp(min(real, 700.0))
         elif op == "LOG":
@@ -335,6 +355,12 @@ def lut_cases(tier):
                     for o in outs:
                         for a in alphas:
                             cases.append(dict(op=op, dtype=dtype, in_q=[s_in, z_in], out_q=[o[0], o[1]], alpha=a))
+    # PRELU with a constant alpha that is equal in every channel (lowered to a table), with and without a change of scale
+    for dtype in ("int8", "uint8"):
+        for s_in in ([0.0235, 0.1] if tier == "quick" else [1 / 64, 0.0235, 0.1, 0.5]):
+            z_in = 5 if dtype == "int8" else 133
+            for o in ((s_in, z_in), (s_in * 0.5, -20 if dtype == "int8" else 100), (s_in * 1.6, 0 if dtype == "int8" else 128), (s_in * 0.75, z_in)):
+                cases.append(dict(op="PRELU", dtype=dtype, in_q=[s_in, z_in], out_q=[o[0], o[1]], alpha=None))
     # functions evaluated through the generic 8-bit table builder (negative results, results far outside the output range)
     for op in ("EXP", "LOG", "SQRT", "GELU", "GELU_TANH"):
         for s_in in ([1 / 64, 0.0235, 0.1] if tier == "quick" else [2.0 ** e for e in range(-7, 0)] + [0.0235, 0.1]):
